@@ -207,6 +207,11 @@ for _p in ("C20", "C05"):
 _add("C14", S+"isFileReady", ["predecessor-name-never-reaches-the-file-system"])
 _add("C02", B+"startRetry", ["gone-files-only", "changed-not-resent"])
 
+# round 5 (fifth batch)
+_add("C05", S+"partReceived", ["delivery-record-reaches-back-to-the-part", "known-file-answers-yes", "yes-needs-record-or-known-file"])
+_add("C08", S+"partReceived", ["delivery-record-reaches-back-to-the-part"])
+for _p in ("C06", "C04"):
+    _add(_p, S+"toWait")
 # round 4: seeds that only the check of another property reported
 _add("C02", S+"partReceived", ["same-version-only", "known-file-answers-yes", "yes-needs-record-or-known-file"])
 _add("C04", "(*queue.sortedFile).getPrevName")
